@@ -19,9 +19,9 @@ struct St
   int limit;           // what the bound is checked against during a loop
   int nloops;
 } st;
-enum { P_BOUND_ATTAINED = 0, P_REINIT, P_NONPOSITIVE_FIRST, P_QUERY_BEFORE_INIT, P_N_ABOVE_CORES, P_PARALLEL_GE2 };
+enum { P_BOUND_ATTAINED = 0, P_REINIT, P_NONPOSITIVE_FIRST, P_QUERY_BEFORE_INIT, P_N_ABOVE_CORES, P_PARALLEL_GE2, P_NESTED };
 const char *probe_names[] = {"thread_bound_attained", "reinitialised_with_other_n", "first_init_nonpositive", "queried_before_init",
-                             "n_above_core_count", "two_or_more_bodies_simultaneously", nullptr};
+                             "n_above_core_count", "two_or_more_bodies_simultaneously", "nested_loop_planned", nullptr};
 const char *no_faults[] = {nullptr};
 
 void reset()
@@ -49,10 +49,12 @@ void do_plan(int tier)
     } else if (k < 4) {
       op.kind = C13_QUERY;
     } else {
-      op.kind = C13_LOOP;
+      op.kind = sim_plan(5) == 0 ? C13_NESTED : C13_LOOP;
       static const int counts[] = {1, 2, 3, 5, 8, 13, 24, 40};
-      op.n = counts[sim_plan(8)];
+      op.n = counts[sim_plan(op.kind == C13_NESTED ? 5 : 8)];
       op.cost = (int)sim_plan(5);
+      if (op.kind == C13_NESTED)
+        sim_probe(P_NESTED);
     }
   }
   sim_set_step_cap(1500000);
@@ -75,6 +77,8 @@ void describe(char *buf, size_t n)
       k += snprintf(buf + k, n - k, "%s\"init(%d)\"", i ? "," : "", op.n);
     else if (op.kind == C13_QUERY)
       k += snprintf(buf + k, n - k, "%s\"numTaskingThreads()\"", i ? "," : "");
+    else if (op.kind == C13_NESTED)
+      k += snprintf(buf + k, n - k, "%s\"parallel_for(3, parallel_for(%d, cost %d))\"", i ? "," : "", op.n, op.cost);
     else
       k += snprintf(buf + k, n - k, "%s\"parallel_for(%d, cost %d)\"", i ? "," : "", op.n, op.cost);
   }
